@@ -50,7 +50,7 @@ pub fn run(p: &Params) -> Run {
         let sch = gen_schema(&mut rng);
         // statement kinds in rotation: plain select, DISTINCT, join (fan-out), aggregate
         let kind = *rng.pick(&["sel", "sel", "dist", "join", "join", "agg", "joinf"]);
-        let opts = QueryOpts { allow_limit: false, allow_distinct: kind == "dist", allow_join: kind == "join" || kind == "joinf", aggregate: Some(kind == "agg") };
+        let opts = QueryOpts { allow_limit: false, allow_distinct: kind == "dist" || (kind == "agg" && rng.chance(1, 2)), allow_join: kind == "join" || kind == "joinf", aggregate: Some(kind == "agg") };
         let mut gq = gen_query(&mut rng, &sch, &opts, &jp);
         for _ in 0..12 {
             let ok = match kind {
